@@ -833,7 +833,7 @@ def tag_emit(F):
         return False
     for node in walk(fn["body"]):
         if node.get("k") == "Call" and (node.get("callee") or "").endswith("::add_injection"):
-            g = any(pol != "pat" and holds(pol, c) for pol, c in guard_conditions(fn["body"], node))
+            g = any(pol in (True, False) and holds(pol, c) for pol, c in guard_conditions(fn["body"], node))
             r.ob(g, {"add_injection guarded by pull_side_effects": g})
             if not g:
                 r.violate("%s | unguarded add_injection" % fn["path"], F.loc(fn, node), "side-effect record is produced even when side effects were not requested")
